@@ -97,7 +97,8 @@ class Scenario:
     on_init(m, sc), after_step(m, sc, label, new_events), on_response(m, sc, k, resp),
     on_quiescent(m, sc)."""
     max_polls = 400
-    stop_on_first_violation = True
+    stop_on_first_violation = False
+    max_violations = 16
     DEFAULTS = dict(
         htlcs=None, invoices=None, policy=None, cltv_delta=None, mpp_timeout_s=60, allow_self=True,
         store_init='free', max_parts=1, pay_outcomes=('complete', 'failed'), faults=0, fault_methods=(),
